@@ -19,7 +19,8 @@ From every root, EVERY request of a fixed finite alphabet is issued:
   every route of HTTPServer (taken from the Klein url map and compared with the table below)
   x targets x request bodies,
   x Authorization in {absent, empty, wrong swissnum, right swissnum under scheme "Basic",
-    non-UTF-8 bytes, right value truncated, right value + suffix, right},
+    non-UTF-8 bytes, right value truncated, right value + suffix, the right token with its letter
+    case swapped / lowered (another swissnum that reads the same case-insensitively), right},
   x X-Tahoe-Authorization sets in {right, none, each required secret missing in turn, one extra
     kind, unknown kind, duplicated, not base64, empty value, base64 of the empty string,
     31-byte renew secret, 33-byte cancel secret, wrong upload secret / write enabler, the OTHER
@@ -93,7 +94,7 @@ ROUTES = [
 ]
 ROUTE = {r[0]: r for r in ROUTES}
 METHODS = ["GET", "HEAD", "POST", "PUT", "PATCH", "DELETE"]
-AUTHS = ["absent", "empty", "wrong", "scheme", "nonutf8", "prefix", "suffix", "right"]
+AUTHS = ["absent", "empty", "wrong", "scheme", "nonutf8", "prefix", "suffix", "swapcase", "lower", "right"]
 SIZE = 8
 NSTATES = 8
 
@@ -159,7 +160,7 @@ def _sec_variants(q, has_owner_secret):
     return v
 
 
-REDUCED_AUTHS = ("wrong", "right")
+REDUCED_AUTHS = ("wrong", "swapcase", "right")
 
 
 def build_alphabet(tier, mode="full"):
@@ -316,6 +317,13 @@ def auth_header(k, node, variant):
         return right[:-2]
     if variant == "suffix":
         return right + b"AA"
+    if variant in ("swapcase", "lower"):
+        # a different swissnum whose base64 spelling differs from the right one only in letter case
+        scheme, tok = right.split(b" ", 1)
+        v = scheme + b" " + (tok.swapcase() if variant == "swapcase" else tok.lower())
+        if v == right:
+            raise RuntimeError("swissnum token has no letters to change")
+        return v
     if variant == "right":
         return right
     raise ValueError(variant)
@@ -748,6 +756,6 @@ def run(tier, seed):
 MANIFEST = {
     "engine": "H",
     "technique": "explicit-state breadth-first search over adversary HTTP requests against the real HTTPServer/StorageServer behind treq's in-memory StubTreq; state = storage directory digest + uploads tables",
-    "text": "From each of 8 scenario states (prefixes of a background scenario with uploads in progress by two clients, a complete share and a mutable slot, plus three states where a share slot changed hands by abort / timeout / completion while a sibling share is still in progress) every request of a finite alphabet - all 12 routes and every other method on their paths, 8 Authorization variants, about 20 X-Tahoe-Authorization variants (missing, extra, duplicated, malformed, wrong, another client's, right) - is sent, and again from every new state it produces (2 levels quick, 3 thorough). Without the exact swissnum the answer must be >= 400 with no stored share bytes and a byte-identical server; malformed or missing secrets must give 4xx and no change; write/abort with someone else's upload secret and writes with a wrong write enabler must be refused, change nothing and leave the upload completable by its owner.",
+    "text": "From each of 8 scenario states (prefixes of a background scenario with uploads in progress by two clients, a complete share and a mutable slot, plus three states where a share slot changed hands by abort / timeout / completion while a sibling share is still in progress) every request of a finite alphabet - all 12 routes and every other method on their paths, 10 Authorization variants (incl. the right token with its letter case changed), about 20 X-Tahoe-Authorization variants (missing, extra, duplicated, malformed, wrong, another client's, right) - is sent, and again from every new state it produces (2 levels quick, 3 thorough). Without the exact swissnum the answer must be >= 400 with no stored share bytes and a byte-identical server; malformed or missing secrets must give 4xx and no change; write/abort with someone else's upload secret and writes with a wrong write enabler must be refused, change nothing and leave the upload completable by its owner.",
     "note": "Complete for the listed alphabet and depth only; TLS, timeouts and header encodings outside the alphabet are not covered. Behaviours the statement does not fix (duplicates containing the right secret, lenient base64) are counted, not judged. DESIGN.md says 13 routes; the url map has 12 (checked at start-up against the table).",
 }
